@@ -295,7 +295,6 @@ Definition some (q : list item) : result * list item :=
       | [] =>
           let '(ds, q3) := pop_decls q2 [] in
           match sort ds with
-          | Ok (_ :: _ as l3) => (Ok l3, q3)
           | Ok [] => let '(l4, q4) := pop_stmts q3 [] in (Ok l4, q4)
           | r => (r, q3)
           end
